@@ -156,6 +156,16 @@ PROPERTIES = {
                      "flags": ["-DC11_LIBFUZZER", "-DC11_FMT=%d" % f, '-DVERIF_TARGET_NAME="c11_fuzz_f%d"' % f], "fmt": f,
                      "budget": {"quick": 75, "thorough": 1500}} for f in range(6)],
     },
+    "C14": {
+        "level": "exploration",
+        "assumptions": [
+            "binary algorithms are called on views of equal dimensions (their documented precondition); operands of copy/convert/fill/resample never overlap, only equal_pixels is also run on two views of the same image",
+            "'the corresponding alternative' is decided by type: where a result list repeats a type (nth_channel_view of rgb8 and bgr8 views is the same gray8 step view) any alternative of that type is accepted, otherwise the index must match",
+            "compatibility of alternatives is taken from the documentation rule (same colour space, pairwise compatible channel types, any layout) written as a table in the harness",
+        ],
+        "targets": [{"name": "c14_p%d" % k, "src": "c14_any_image.cpp", "mode": "asan", "rapidcheck": True,
+                     "flags": ["-DC14_PART=%d" % k, '-DVERIF_TARGET_NAME="c14_p%d"' % k], "subtargets": (["transform"] if k == 0 else ["value"] if k == 7 else ["pair"]), "match": ("part", None, k)} for k in range(8)],
+    },
     "C13": {
         "level": "exploration",
         "assumptions": [
